@@ -103,69 +103,69 @@ pub fn content<S: TShape, const N: usize>(parts: &[usize], kinds: &[i32], open: 
 }
 
 // ---- quick content cells (one per type) ------------------------------------------------
-// H: tier=quick; sym=2 f64 (X,Y non-NaN); asserts=typed+generic read bit-identical
+// H: tier=quick; unwind=140; sym=2 f64 (X,Y non-NaN); asserts=typed+generic read bit-identical
 #[kani::proof]
-#[kani::unwind(22)]
+#[kani::unwind(140)]
 pub(crate) fn c01_q_content_point() {
     content::<Point, 64>(&[], &[], &[], &[]);
 }
-// H: tier=quick; sym=3 f64; asserts=typed+generic read bit-identical incl. M (no normalisation for single points)
+// H: tier=quick; unwind=140; sym=3 f64; asserts=typed+generic read bit-identical incl. M (no normalisation for single points)
 #[kani::proof]
-#[kani::unwind(22)]
+#[kani::unwind(140)]
 pub(crate) fn c01_q_content_pointm() {
     content::<PointM, 64>(&[], &[], &[], &[]);
 }
-// H: tier=quick; sym=4 f64; asserts=typed+generic read bit-identical incl. Z and M
+// H: tier=quick; unwind=140; sym=4 f64; asserts=typed+generic read bit-identical incl. Z and M
 #[kani::proof]
-#[kani::unwind(22)]
+#[kani::unwind(140)]
 pub(crate) fn c01_q_content_pointz() {
     content::<PointZ, 64>(&[], &[], &[], &[]);
 }
-// H: tier=quick; sym=3 vertices x 2 f64; asserts=count, XY bits, box bits
+// H: tier=quick; unwind=140; sym=3 vertices x 2 f64; asserts=count, XY bits, box bits
 #[kani::proof]
-#[kani::unwind(22)]
+#[kani::unwind(140)]
 pub(crate) fn c01_q_content_multipoint_3() {
     content::<Multipoint, 128>(&[3], &[], &[], &[]);
 }
-// H: tier=quick; sym=2 vertices x 3 f64; asserts=count, XY bits, M normalised, box bits incl. M range
+// H: tier=quick; unwind=140; sym=2 vertices x 3 f64; asserts=count, XY bits, M normalised, box bits incl. M range
 #[kani::proof]
-#[kani::unwind(22)]
+#[kani::unwind(140)]
 pub(crate) fn c01_q_content_multipointm_2() {
     content::<MultipointM, 128>(&[2], &[], &[], &[]);
 }
-// H: tier=quick; sym=3 vertices x 4 f64; asserts=count, XYZ bits, M normalised, box bits incl. Z and M range
+// H: tier=quick; unwind=140; sym=3 vertices x 4 f64; asserts=count, XYZ bits, M normalised, box bits incl. Z and M range
 #[kani::proof]
-#[kani::unwind(22)]
+#[kani::unwind(140)]
 pub(crate) fn c01_q_content_multipointz_3() {
     content::<MultipointZ, 256>(&[3], &[], &[], &[]);
 }
-// H: tier=quick; sym=5 vertices x 2 f64 in parts [2,3]; asserts=part structure, XY bits, box bits
+// H: tier=quick; unwind=140; sym=5 vertices x 2 f64 in parts [2,3]; asserts=part structure, XY bits, box bits
 #[kani::proof]
-#[kani::unwind(22)]
+#[kani::unwind(140)]
 pub(crate) fn c01_q_content_polyline_2_3() {
     content::<Polyline, 192>(&[2, 3], &[], &[], &[]);
 }
-// H: tier=quick; sym=5 vertices x 3 f64 in parts [2,3]; asserts=part structure, XY bits, M normalised, box bits
+// H: tier=quick; unwind=140; sym=5 vertices x 3 f64 in parts [2,3]; asserts=part structure, XY bits, M normalised, box bits
 #[kani::proof]
-#[kani::unwind(22)]
+#[kani::unwind(140)]
 pub(crate) fn c01_q_content_polylinem_2_3() {
     content::<PolylineM, 256>(&[2, 3], &[], &[], &[]);
 }
-// H: tier=quick; sym=5 vertices x 4 f64 in parts [2,3]; asserts=part structure, XYZ bits, M normalised, box bits
+// H: tier=quick; unwind=140; sym=5 vertices x 4 f64 in parts [2,3]; asserts=part structure, XYZ bits, M normalised, box bits
 #[kani::proof]
-#[kani::unwind(22)]
+#[kani::unwind(140)]
 pub(crate) fn c01_q_content_polylinez_2_3() {
     content::<PolylineZ, 320>(&[2, 3], &[], &[], &[]);
 }
-// H: tier=quick; sym=7 vertices x 4 f64, patches [triangle strip 3, outer ring 4 with concrete equal end vertices]; asserts=patch structure and kinds, XYZ bits, M normalised, box bits
+// H: tier=quick; unwind=140; sym=7 vertices x 4 f64, patches [triangle strip 3, outer ring 4 with concrete equal end vertices]; asserts=patch structure and kinds, XYZ bits, M normalised, box bits
 #[kani::proof]
-#[kani::unwind(22)]
+#[kani::unwind(140)]
 pub(crate) fn c01_q_content_multipatch_strip3_outer4() {
     content::<Multipatch, 400>(&[3, 4], &[0, 2], &[], &[1]);
 }
-// H: tier=quick; sym=6 vertices x 4 f64, patches [triangle fan 3, ring 3 open by concrete end X -> closed by the constructor to 4]; asserts=patch structure and kinds, XYZ bits incl. the appended copy, M normalised, box bits
+// H: tier=quick; unwind=140; sym=6 vertices x 4 f64, patches [triangle fan 3, ring 3 open by concrete end X -> closed by the constructor to 4]; asserts=patch structure and kinds, XYZ bits incl. the appended copy, M normalised, box bits
 #[kani::proof]
-#[kani::unwind(22)]
+#[kani::unwind(140)]
 pub(crate) fn c01_q_content_multipatch_fan3_ring3open() {
     content::<Multipatch, 400>(&[3, 3], &[1, 5], &[1], &[]);
 }
@@ -217,21 +217,21 @@ const SQ_CW: [[f64; 2]; 5] = [[0.0, 0.0], [0.0, 4.0], [4.0, 4.0], [4.0, 0.0], [0
 const SQ_CCW: [[f64; 2]; 5] = [[1.0, 1.0], [3.0, 1.0], [3.0, 3.0], [1.0, 3.0], [1.0, 1.0]];
 const TRI_OPEN_CCW: [[f64; 2]; 3] = [[10.0, 0.0], [12.0, 0.0], [11.0, 2.0]];
 
-// H: tier=quick; sym=Z,M of interior vertices (2 rings x 3 interior vertices); concrete XY: clockwise square declared outer + counter-clockwise square declared inner, closed; asserts=ring roles survive, structure, XYZ bits, M normalised, box bits
+// H: tier=quick; unwind=140; sym=Z,M of interior vertices (2 rings x 3 interior vertices); concrete XY: clockwise square declared outer + counter-clockwise square declared inner, closed; asserts=ring roles survive, structure, XYZ bits, M normalised, box bits
 #[kani::proof]
-#[kani::unwind(22)]
+#[kani::unwind(140)]
 pub(crate) fn c01_q_content_polygonz_outer_inner() {
     polygon_fixed_xy::<PolygonZ, 512>(&[(&SQ_CW, 0), (&SQ_CCW, 1)], true);
 }
-// H: tier=quick; sym=M of interior vertices; concrete XY: counter-clockwise square declared OUTER (constructor must reverse it) ; asserts=role outer survives the round trip, structure, XY bits, M normalised
+// H: tier=quick; unwind=140; sym=M of interior vertices; concrete XY: counter-clockwise square declared OUTER (constructor must reverse it) ; asserts=role outer survives the round trip, structure, XY bits, M normalised
 #[kani::proof]
-#[kani::unwind(22)]
+#[kani::unwind(140)]
 pub(crate) fn c01_q_content_polygonm_reversed() {
     polygon_fixed_xy::<PolygonM, 320>(&[(&SQ_CCW, 0)], true);
 }
-// H: tier=quick; sym=none beyond structure (Polygon has only XY); concrete XY: clockwise square outer + open counter-clockwise triangle declared outer (closed and reversed by the constructor); asserts=roles survive, structure, XY bits, box bits
+// H: tier=quick; unwind=140; sym=none beyond structure (Polygon has only XY); concrete XY: clockwise square outer + open counter-clockwise triangle declared outer (closed and reversed by the constructor); asserts=roles survive, structure, XY bits, box bits
 #[kani::proof]
-#[kani::unwind(22)]
+#[kani::unwind(140)]
 pub(crate) fn c01_q_content_polygon_two_outers_one_open() {
     polygon_fixed_xy::<Polygon, 320>(&[(&SQ_CW, 0), (&TRI_OPEN_CCW, 0)], false);
 }
@@ -338,45 +338,45 @@ pub fn framing<S: TShape, const N: usize>(structs: &[&[usize]], route: u8) {
     std::mem::forget(rd);
 }
 
-// H: tier=quick; sym=3 PointZ x 4 f64; route=typed, iterate, no shx; asserts=3 shapes in order, bit-identical, then None
+// H: tier=quick; unwind=140; sym=3 PointZ x 4 f64; route=typed, iterate, no shx; asserts=3 shapes in order, bit-identical, then None
 #[kani::proof]
-#[kani::unwind(22)]
+#[kani::unwind(140)]
 pub(crate) fn c01_q_framing_pointz3_typed_iter_noshx() {
     framing::<PointZ, 240>(&[&[], &[], &[]], 0);
 }
-// H: tier=quick; sym=2 PointM x 3 f64; route=generic, iterate, with shx; asserts=2 shapes in order, bit-identical, then None
+// H: tier=quick; unwind=140; sym=2 PointM x 3 f64; route=generic, iterate, with shx; asserts=2 shapes in order, bit-identical, then None
 #[kani::proof]
-#[kani::unwind(22)]
+#[kani::unwind(140)]
 pub(crate) fn c01_q_framing_pointm2_generic_iter_shx() {
     framing::<PointM, 200>(&[&[], &[]], 1 | 4);
 }
-// H: tier=quick; sym=3 Point x 2 f64; route=generic, random access, with shx; asserts=read_nth_shape(i) == i-th written for i<3, None at 3
+// H: tier=quick; unwind=140; sym=3 Point x 2 f64; route=generic, random access, with shx; asserts=read_nth_shape(i) == i-th written for i<3, None at 3
 #[kani::proof]
-#[kani::unwind(22)]
+#[kani::unwind(140)]
 pub(crate) fn c01_q_framing_point3_generic_nth_shx() {
     framing::<Point, 200>(&[&[], &[], &[]], 1 | 2 | 4);
 }
-// H: tier=quick; sym=Polyline records [2] then [3] points (different sizes) x 2 f64; route=typed, iterate, with shx; asserts=2 shapes in order, structure and bits
+// H: tier=quick; unwind=140; sym=Polyline records [2] then [3] points (different sizes) x 2 f64; route=typed, iterate, with shx; asserts=2 shapes in order, structure and bits
 #[kani::proof]
-#[kani::unwind(22)]
+#[kani::unwind(140)]
 pub(crate) fn c01_q_framing_polyline_2_then_3_typed_iter_shx() {
     framing::<Polyline, 320>(&[&[2], &[3]], 4);
 }
-// H: tier=quick; sym=Polyline records [2] then [3] points x 2 f64; route=typed, random access, with shx; asserts=read_nth_shape_as(i) equals i-th written
+// H: tier=quick; unwind=140; sym=Polyline records [2] then [3] points x 2 f64; route=typed, random access, with shx; asserts=read_nth_shape_as(i) equals i-th written
 #[kani::proof]
-#[kani::unwind(22)]
+#[kani::unwind(140)]
 pub(crate) fn c01_q_framing_polyline_2_then_3_typed_nth_shx() {
     framing::<Polyline, 320>(&[&[2], &[3]], 2 | 4);
 }
-// H: tier=quick; sym=Polyline records [3] then [2] points x 2 f64; route=typed, iterate, no shx; asserts=2 shapes in order
+// H: tier=quick; unwind=140; sym=Polyline records [3] then [2] points x 2 f64; route=typed, iterate, no shx; asserts=2 shapes in order
 #[kani::proof]
-#[kani::unwind(22)]
+#[kani::unwind(140)]
 pub(crate) fn c01_q_framing_polyline_3_then_2_typed_iter_noshx() {
     framing::<Polyline, 320>(&[&[3], &[2]], 0);
 }
-// H: tier=quick; sym=2 PointZ x 4 f64; route=generic, iterate, no shx; asserts=2 shapes in order, bit-identical, then None
+// H: tier=quick; unwind=140; sym=2 PointZ x 4 f64; route=generic, iterate, no shx; asserts=2 shapes in order, bit-identical, then None
 #[kani::proof]
-#[kani::unwind(22)]
+#[kani::unwind(140)]
 pub(crate) fn c01_q_framing_pointz2_generic_iter_noshx() {
     framing::<PointZ, 200>(&[&[], &[]], 1);
 }
